@@ -662,89 +662,56 @@ func (ck *checker) build(spec cfgSpec) *inst {
 	return in
 }
 
-func (ck *checker) features(in *inst, st *cmpState) map[string]string {
-	f := map[string]string{"chain": "-", "lists": "-"}
-	if st.emptyMid {
-		f["chain"] = "empty-intermediate"
-	}
-	if in.c.crossPrefix {
-		f["lists"] = "cross-prefix"
-	}
-	return f
+type observed struct {
+	body        *V
+	marks       map[string]string
+	structErr   string
+	withMetrics bool
+	dTotal      float64
+	dMask       []float64
 }
 
-// check runs one document through the plugin instance and compares with the reference.
-func (ck *checker) check(in *inst, doc *V, docStr string, withMetrics bool) {
-	r := ck.run
-	r.Case()
-	tc := tcase{Cfg: in.c.spec, Doc: docStr, Prev: in.prev}
-	in.prev = docStr
-	ev, err := vplug.NewEvent(docStr)
-	if err != nil {
-		panic("bad document " + docStr + ": " + err.Error())
-	}
-	defer insaneJSON.Release(ev.Root)
-	var before float64
-	var mBefore []float64
-	if withMetrics {
-		before = mask.VerifAppliedTotal(in.p)
-		for i := range in.c.masks {
-			mBefore = append(mBefore, mask.VerifMaskMetric(in.p, i))
+func atoms(st *cmpState) map[string]bool {
+	out := map[string]bool{}
+	for t := range st.triggers {
+		for _, x := range strings.FieldsFunc(t, func(r rune) bool { return r == ',' || r == '+' }) {
+			out[x] = true
 		}
 	}
-	var res pipeline.ActionResult
-	panicked, val, stack := vplug.Try(func() { res = in.p.Do(ev) })
-	r.Steps(1)
-	st := &cmpState{triggers: map[string]bool{}}
-	if panicked {
+	return out
+}
+
+var reUnordered = regexp.MustCompile(`slice bounds out of range \[\d+:\d+\]`)
+
+// panicKind classifies the panic by its own message.
+func panicKind(val string) string {
+	switch {
+	case strings.Contains(val, "slice bounds out of range [-1:]"):
+		return "unmatched-last"
+	case reUnordered.MatchString(val):
+		return "unordered"
+	}
+	return "other"
+}
+
+// evaluate compares what the plugin did with the reference (stale=false) or with the model of the known
+// stale-original defect (stale=true, used only for labelling).
+func (ck *checker) evaluate(in *inst, doc *V, obs *observed, stale bool) *cmpState {
+	st := &cmpState{triggers: map[string]bool{}, stale: stale}
+	if obs == nil {
 		in.c.compare(doc, nil, nil, st)
-		var tl []string
-		for t := range st.triggers {
-			tl = append(tl, t)
-		}
-		sort.Strings(tl)
-		trig := strings.Join(tl, ",")
-		if trig == "" {
-			trig = "none"
-		}
-		r.Violation("panic", map[string]string{"site": vreport.PanicSite(stack), "trigger": trig},
-			fmt.Sprintf("panic: %s\nconfig=%s doc=%s\n%s", val, in.c.spec.configJSON(), docStr, stack), tc)
-		r.Outcome("panic", trig)
-		r.Count("panics", 1)
-		return
+		return st
 	}
-	if res != pipeline.ActionPass {
-		r.Violation("result", nil, fmt.Sprintf("Do returned %d", res), tc)
-		return
+	if obs.structErr != "" {
+		st.fail("structure", "%s", obs.structErr)
 	}
-	gotStr := ev.Root.EncodeToString()
-	got, perr := Parse(gotStr)
-	if perr != nil || got.Kind != Obj {
-		r.Violation("structure", nil, fmt.Sprintf("result is not a JSON object: %q (%v) config=%s doc=%s", gotStr, perr, in.c.spec.configJSON(), docStr), tc)
-		return
-	}
-	// split off the appended mark fields
-	marks := map[string]string{}
-	body := O()
-	for i, f := range got.Fields {
-		if i >= len(doc.Fields) {
-			if f.V.Kind != Str {
-				st.fail("structure", "appended field %q is not a string", f.K)
-			} else if _, dup := marks[f.K]; dup {
-				st.fail("structure", "appended field %q twice", f.K)
-			}
-			marks[f.K] = f.V.S
-			continue
-		}
-		body.Fields = append(body.Fields, f)
-	}
-	in.c.compare(doc, body, nil, st)
-	ctx := func() string {
-		return fmt.Sprintf("config=%s\n doc=%s\n got=%s", in.c.spec.configJSON(), docStr, gotStr)
-	}
+	in.c.compare(doc, obs.body, nil, st)
 	if st.err != "" {
-		r.Violation(st.errClause, ck.features(in, st), st.err+"\n"+ctx(), tc)
-		return
+		return st
+	}
+	marks := map[string]string{}
+	for k, v := range obs.marks {
+		marks[k] = v
 	}
 	// applied marks: set exactly when the mask (some mask) matched
 	for i, m := range in.c.spec.Masks {
@@ -782,8 +749,8 @@ func (ck *checker) check(in *inst, doc *V, docStr string, withMetrics bool) {
 	for k := range marks {
 		st.fail("structure", "unexpected extra field %q", k)
 	}
-	if st.err == "" && withMetrics {
-		d := mask.VerifAppliedTotal(in.p) - before
+	if st.err == "" && obs.withMetrics {
+		d := obs.dTotal
 		switch {
 		case d != 0 && d != 1:
 			st.fail("metric", "mask_applied_total moved by %v for one event", d)
@@ -796,7 +763,7 @@ func (ck *checker) check(in *inst, doc *V, docStr string, withMetrics bool) {
 			if !m.Metric {
 				continue
 			}
-			d := mask.VerifMaskMetric(in.p, i) - mBefore[i]
+			d := obs.dMask[i]
 			bit := uint8(1) << i
 			switch {
 			case d < 0:
@@ -808,8 +775,88 @@ func (ck *checker) check(in *inst, doc *V, docStr string, withMetrics bool) {
 			}
 		}
 	}
+	return st
+}
+
+// check runs one document through the plugin instance and compares with the reference.
+func (ck *checker) check(in *inst, doc *V, docStr string, withMetrics bool) {
+	r := ck.run
+	r.Case()
+	tc := tcase{Cfg: in.c.spec, Doc: docStr, Prev: in.prev}
+	in.prev = docStr
+	ev, err := vplug.NewEvent(docStr)
+	if err != nil {
+		panic("bad document " + docStr + ": " + err.Error())
+	}
+	defer insaneJSON.Release(ev.Root)
+	var before float64
+	var mBefore []float64
+	if withMetrics {
+		before = mask.VerifAppliedTotal(in.p)
+		for i := range in.c.masks {
+			mBefore = append(mBefore, mask.VerifMaskMetric(in.p, i))
+		}
+	}
+	var res pipeline.ActionResult
+	panicked, val, stack := vplug.Try(func() { res = in.p.Do(ev) })
+	r.Steps(1)
+	if panicked {
+		st := ck.evaluate(in, doc, nil, false)
+		kind := panicKind(val)
+		predicted := "no"
+		if atoms(st)[kind] {
+			predicted = "yes"
+		} else if st.emptyMid && atoms(ck.evaluate(in, doc, nil, true))[kind] {
+			predicted = "stale-original"
+		}
+		r.Violation("panic", map[string]string{"site": vreport.PanicSite(stack), "kind": kind, "predicted": predicted},
+			fmt.Sprintf("panic: %s\nconfig=%s doc=%s\n%s", val, in.c.spec.configJSON(), docStr, stack), tc)
+		r.Outcome("panic", kind, predicted)
+		r.Count("panics", 1)
+		return
+	}
+	if res != pipeline.ActionPass {
+		r.Violation("result", nil, fmt.Sprintf("Do returned %d", res), tc)
+		return
+	}
+	gotStr := ev.Root.EncodeToString()
+	got, perr := Parse(gotStr)
+	if perr != nil || got.Kind != Obj {
+		r.Violation("structure", nil, fmt.Sprintf("result is not a JSON object: %q (%v) config=%s doc=%s", gotStr, perr, in.c.spec.configJSON(), docStr), tc)
+		return
+	}
+	// split off the appended mark fields
+	obs := &observed{marks: map[string]string{}, body: O(), withMetrics: withMetrics}
+	for i, f := range got.Fields {
+		if i >= len(doc.Fields) {
+			if f.V.Kind != Str {
+				obs.structErr = fmt.Sprintf("appended field %q is not a string", f.K)
+			} else if _, dup := obs.marks[f.K]; dup {
+				obs.structErr = fmt.Sprintf("appended field %q twice", f.K)
+			}
+			obs.marks[f.K] = f.V.S
+			continue
+		}
+		obs.body.Fields = append(obs.body.Fields, f)
+	}
+	if withMetrics {
+		obs.dTotal = mask.VerifAppliedTotal(in.p) - before
+		for i := range in.c.masks {
+			obs.dMask = append(obs.dMask, mask.VerifMaskMetric(in.p, i)-mBefore[i])
+		}
+	}
+	st := ck.evaluate(in, doc, obs, false)
 	if st.err != "" {
-		r.Violation(st.errClause, ck.features(in, st), st.err+"\n"+ctx(), tc)
+		f := map[string]string{"chain": "-", "lists": "-"}
+		if st.emptyMid && ck.evaluate(in, doc, obs, true).err == "" {
+			// everything observed is what the stale-original defect model produces
+			f["chain"] = "empty-intermediate"
+		}
+		if in.c.crossPrefix {
+			f["lists"] = "cross-prefix"
+		}
+		r.Violation(st.errClause, f, fmt.Sprintf("%s\nconfig=%s\n doc=%s\n got=%s", st.err, in.c.spec.configJSON(), docStr, gotStr), tc)
+		r.Outcome("violation", st.errClause, f["chain"], f["lists"])
 		return
 	}
 	if gotStr != docStr {
